@@ -1,0 +1,49 @@
+//go:build verif
+
+package graphql
+
+import "github.com/graphql-go/graphql/language/ast"
+
+// Exported views of internal functions for the verification harness (build tag verif).
+
+func VerifValueFromAST(valueAST ast.Value, ttype Input, variables map[string]interface{}) interface{} {
+	return valueFromAST(valueAST, ttype, variables)
+}
+
+func VerifIsValidLiteralValue(ttype Input, valueAST ast.Value) (bool, []string) {
+	return isValidLiteralValue(ttype, valueAST)
+}
+
+func VerifIsValidInputValue(value interface{}, ttype Input) (bool, []string) {
+	return isValidInputValue(value, ttype)
+}
+
+func VerifCoerceValue(ttype Input, value interface{}) interface{} {
+	return coerceValue(ttype, value)
+}
+
+func VerifAstFromValue(value interface{}, ttype Type) ast.Value {
+	return astFromValue(value, ttype)
+}
+
+func VerifNormalizeDocument(schema *Schema, doc *ast.Document, operationName string) (*ast.Document, map[string]interface{}, string, error) {
+	return normalizeDocument(schema, doc, operationName)
+}
+
+// VerifLen reports the number of entries currently retained by the cache.
+func (c *PlanCache) VerifLen() int {
+	c.mu.Lock()
+	defer c.mu.Unlock()
+	return c.order.Len()
+}
+
+// VerifKeys lists the retained keys, most recently used first.
+func (c *PlanCache) VerifKeys() []string {
+	c.mu.Lock()
+	defer c.mu.Unlock()
+	var keys []string
+	for el := c.order.Front(); el != nil; el = el.Next() {
+		keys = append(keys, el.Value.(*planCacheItem).key)
+	}
+	return keys
+}
